@@ -41,15 +41,15 @@ def layoutAll : List Ty → Nat → Nat → Bool
 end
 
 mutual
-/-- how many entries of `sizes` the instantiation reads: a struct member at
-position `idx` reads from `sizes[idx:]`. -/
+/-- how many entries of `sizes` the instantiation needs: a struct member reads
+from `sizes[consumed:]`, `consumed` = `numSizes` of the members before it. -/
 def Ty.span : Ty → Nat
   | .base _ _ _ _ _ => 1
   | .elem _ _ _ _ _ _ => 1
   | .struct _ _ _ _ fs => max 1 (spanAll fs)
 def spanAll : List Ty → Nat
   | [] => 0
-  | f :: fs => max f.span (1 + spanAll fs)
+  | f :: fs => max f.span (f.numSizes + spanAll fs)
 end
 
 mutual
@@ -140,14 +140,15 @@ theorem instFields_sized : ∀ (fs : List Ty) (sizes : List Nat) (acc total : Na
     obtain ⟨⟨hoff, hfl⟩, hrest⟩ := hlay
     simp only [spanAll] at hl
     cases sizes with
-    | nil => have := Ty.span_pos f; simp at hl
+    | nil => have := Ty.span_pos f; simp at hl; omega
     | cons s rest =>
       have h1 : f.span ≤ (s :: rest).length := by omega
-      have h2 : spanAll fs ≤ rest.length := by simp at hl; omega
+      have h2 : spanAll fs ≤ ((s :: rest).drop f.numSizes).length := by
+        rw [List.length_drop]; omega
       subst hoff
       have hf := Ty.inst_sized f (s :: rest) hs.1 hfl h1
-      have hr := instFields_sized fs rest (f.off + f.bits) total hs.2 hrest h2
-      simp [instFields, hf, hr, Ty.setOff_off]
+      have hr := instFields_sized fs ((s :: rest).drop f.numSizes) (f.off + f.bits) total hs.2 hrest h2
+      simp only [instFields, hf, hr, Ty.setOff_off]
 end
 
 /-! ## only unsized leaves are touched -/
@@ -210,14 +211,14 @@ theorem instFields_agree : ∀ (fs : List Ty) (sizes : List Nat) (acc : Nat) (fs
       | error e => simp [hf] at h
       | ok f' =>
         simp only [hf] at h
-        cases hr : instFields fs rest (acc + f'.bits) with
+        cases hr : instFields fs ((s :: rest).drop f'.numSizes) (acc + f'.bits) with
         | error e => simp [hr] at h
         | ok p =>
           obtain ⟨gs, tot⟩ := p
           simp [hr] at h
           obtain ⟨rfl, rfl⟩ := h
           exact ⟨f'.setOff acc, gs, rfl, Ty.agree_setOff f f' acc (Ty.inst_agree f (s :: rest) f' hf),
-            instFields_agree fs rest (acc + f'.bits) gs tot hr⟩
+            instFields_agree fs _ (acc + f'.bits) gs tot hr⟩
 end
 
 /-! ## the result has the struct layout -/
@@ -278,7 +279,7 @@ theorem instFields_layout : ∀ (fs : List Ty) (sizes : List Nat) (acc : Nat) (f
       | error e => simp [hf] at h
       | ok f' =>
         simp only [hf] at h
-        cases hr : instFields fs rest (acc + f'.bits) with
+        cases hr : instFields fs ((s :: rest).drop f'.numSizes) (acc + f'.bits) with
         | error e => simp [hr] at h
         | ok p =>
           obtain ⟨gs, tot⟩ := p
@@ -287,18 +288,82 @@ theorem instFields_layout : ∀ (fs : List Ty) (sizes : List Nat) (acc : Nat) (f
           simp only [layoutAll, Bool.and_eq_true, beq_iff_eq]
           refine ⟨⟨Ty.off_setOff f' acc, ?_⟩, ?_⟩
           · rw [Ty.layoutOk_setOff]; exact Ty.inst_layout f (s :: rest) f' hf
-          · rw [Ty.setOff_bits]; exact instFields_layout fs rest (acc + f'.bits) gs tot hr
+          · rw [Ty.setOff_bits]; exact instFields_layout fs _ (acc + f'.bits) gs tot hr
 end
 
-/-! ## member `k` of a struct is instantiated from `sizes[k:]` -/
+/-! ## leaf `k` of the flattened type is instantiated from `sizes[k:]` -/
 
-theorem instFields_member : ∀ (fs : List Ty) (sizes : List Nat) (acc : Nat) (fs' : List Ty) (total : Nat),
-    instFields fs sizes acc = .ok (fs', total) → fs'.length = fs.length ∧
-    ∀ k (hk : k < fs.length), ∃ f' o, fs[k].inst (sizes.drop k) = .ok f' ∧ fs'[k]? = some (f'.setOff o)
+theorem Ty.leaves_setOff_erase (t : Ty) (a : Nat) :
+    (t.setOff a).leaves.map (·.setOff 0) = t.leaves.map (·.setOff 0) := by
+  cases t <;> simp [Ty.setOff, Ty.leaves]
+
+mutual
+/-- `numSizes` counts the leaves of `flattenStruct` -/
+theorem Ty.numSizes_eq : ∀ (t : Ty), t.numSizes = t.leaves.length
+  | .base _ _ _ _ _ => by simp [Ty.numSizes, Ty.leaves]
+  | .elem _ _ _ _ _ _ => by simp [Ty.numSizes, Ty.leaves]
+  | .struct _ _ _ _ fs => by simp only [Ty.numSizes, Ty.leaves]; exact numSizesAll_eq fs
+theorem numSizesAll_eq : ∀ (fs : List Ty), numSizesAll fs = (leavesAll fs).length
+  | [] => by simp [numSizesAll, leavesAll]
+  | f :: fs => by
+    simp only [numSizesAll, leavesAll, List.length_append]
+    rw [Ty.numSizes_eq f, numSizesAll_eq fs]
+end
+
+/-- what every leaf should become: leaf `k` instantiated on its own from the
+sizes from entry `k` on (offsets erased: they are struct bookkeeping) -/
+def instLeavesSpec : List Ty → List Nat → List (Except Err Ty)
+  | [], _ => []
+  | l :: ls, sizes => (l.inst sizes).map (·.setOff 0) :: instLeavesSpec ls (sizes.drop 1)
+
+theorem instLeavesSpec_length : ∀ (ls : List Ty) (sizes : List Nat), (instLeavesSpec ls sizes).length = ls.length
+  | [], _ => rfl
+  | l :: ls, sizes => by simp [instLeavesSpec, instLeavesSpec_length ls]
+
+theorem instLeavesSpec_append : ∀ (as bs : List Ty) (sizes : List Nat),
+    instLeavesSpec (as ++ bs) sizes = instLeavesSpec as sizes ++ instLeavesSpec bs (sizes.drop as.length)
+  | [], bs, sizes => by simp [instLeavesSpec]
+  | a :: as, bs, sizes => by
+    simp only [List.cons_append, instLeavesSpec, List.length_cons, instLeavesSpec_append as bs, List.drop_drop]
+    rw [Nat.add_comm 1 as.length]
+
+theorem instLeavesSpec_get : ∀ (ls : List Ty) (sizes : List Nat) (k : Nat) (hk : k < ls.length),
+    (instLeavesSpec ls sizes)[k]? = some ((ls[k].inst (sizes.drop k)).map (·.setOff 0))
+  | [], _, k, hk => by simp at hk
+  | l :: ls, sizes, 0, _ => by simp [instLeavesSpec]
+  | l :: ls, sizes, k + 1, hk => by
+    have hk' : k < ls.length := by simpa using hk
+    simp only [instLeavesSpec, List.getElem?_cons_succ, List.getElem_cons_succ]
+    rw [instLeavesSpec_get ls (sizes.drop 1) k hk', List.drop_drop, Nat.add_comm 1 k]
+
+mutual
+theorem Ty.inst_leaves : ∀ (t : Ty) (sizes : List Nat) (t' : Ty), t.inst sizes = .ok t' →
+    t'.leaves.map (fun g => (Except.ok (g.setOff 0) : Except Err Ty)) = instLeavesSpec t.leaves sizes
+  | .base tag c b n o, sizes, t', h => by
+    obtain ⟨c', b', o', rfl, _⟩ := Ty.inst_agree _ sizes t' h
+    simp [Ty.leaves, instLeavesSpec, h, Except.map]
+  | .elem tag c b n o el, sizes, t', h => by
+    obtain ⟨c', b', n', o', rfl, _⟩ := Ty.inst_agree _ sizes t' h
+    simp [Ty.leaves, instLeavesSpec, h, Except.map]
+  | .struct c b n o fs, sizes, t', h => by
+    cases sizes with
+    | nil => simp [Ty.inst] at h
+    | cons s rest =>
+      simp only [Ty.inst] at h
+      cases hf : instFields fs (s :: rest) 0 with
+      | error e => simp [hf] at h
+      | ok p =>
+        obtain ⟨fs', total⟩ := p
+        simp [hf] at h; subst h
+        simp only [Ty.leaves]
+        exact instFields_leaves fs (s :: rest) 0 fs' total hf
+theorem instFields_leaves : ∀ (fs : List Ty) (sizes : List Nat) (acc : Nat) (fs' : List Ty) (total : Nat),
+    instFields fs sizes acc = .ok (fs', total) →
+    (leavesAll fs').map (fun g => (Except.ok (g.setOff 0) : Except Err Ty)) = instLeavesSpec (leavesAll fs) sizes
   | [], sizes, acc, fs', total, h => by
     simp [instFields] at h
     obtain ⟨rfl, rfl⟩ := h
-    simp
+    simp [leavesAll, instLeavesSpec]
   | f :: fs, sizes, acc, fs', total, h => by
     cases sizes with
     | nil => simp [instFields] at h
@@ -308,21 +373,24 @@ theorem instFields_member : ∀ (fs : List Ty) (sizes : List Nat) (acc : Nat) (f
       | error e => simp [hf] at h
       | ok f' =>
         simp only [hf] at h
-        cases hr : instFields fs rest (acc + f'.bits) with
+        cases hr : instFields fs ((s :: rest).drop f'.numSizes) (acc + f'.bits) with
         | error e => simp [hr] at h
         | ok p =>
           obtain ⟨gs, tot⟩ := p
           simp [hr] at h
           obtain ⟨rfl, rfl⟩ := h
-          have ih := instFields_member fs rest (acc + f'.bits) gs tot hr
-          refine ⟨by simp [ih.1], ?_⟩
-          intro k hk
-          cases k with
-          | zero => exact ⟨f', acc, by simpa using hf, by simp⟩
-          | succ k =>
-            have hk' : k < fs.length := by simpa using hk
-            obtain ⟨g', o, hg, hgo⟩ := ih.2 k hk'
-            exact ⟨g', o, by simpa using hg, by simpa using hgo⟩
+          have ih1 := Ty.inst_leaves f (s :: rest) f' hf
+          have ih2 := instFields_leaves fs _ (acc + f'.bits) gs tot hr
+          have hlen : f'.numSizes = f.leaves.length := by
+            have := congrArg List.length ih1
+            rw [List.length_map, instLeavesSpec_length] at this
+            rw [Ty.numSizes_eq, this]
+          have herase : (f'.setOff acc).leaves.map (fun g => (Except.ok (g.setOff 0) : Except Err Ty)) =
+              f'.leaves.map (fun g => (Except.ok (g.setOff 0) : Except Err Ty)) := by
+            have := congrArg (List.map (fun g => (Except.ok g : Except Err Ty))) (Ty.leaves_setOff_erase f' acc)
+            simpa [List.map_map, Function.comp_def] using this
+          simp only [leavesAll, List.map_append, instLeavesSpec_append, herase, ih1, ← hlen, ih2]
+end
 
 /-! ## flattening keeps the agreement -/
 
